@@ -1783,7 +1783,18 @@ class GlyphComponent(object):
         # this TT feature.
         if hasattr(self, "transform"):
             [[xx, xy], [yx, yy]] = self.transform
-            trans = (xx, xy, yx, yy, self.x, self.y)
+            x, y = self.x, self.y
+            apple_way = self.flags & SCALED_COMPONENT_OFFSET
+            ms_way = self.flags & UNSCALED_COMPONENT_OFFSET
+            if not (apple_way or ms_way):
+                scale_component_offset = SCALE_COMPONENT_OFFSET_DEFAULT
+            else:
+                scale_component_offset = apple_way and not ms_way
+            if scale_component_offset:
+                # the Apple way: the component offset is scaled too, exactly
+                # as Glyph.getCoordinates() does when flattening the composite
+                x, y = x * xx + y * yx, x * xy + y * yy
+            trans = (xx, xy, yx, yy, x, y)
         else:
             trans = (1, 0, 0, 1, self.x, self.y)
         return self.glyphName, trans
